@@ -60,7 +60,7 @@ func edgeVals(d ref.DT) []interface{} {
 		}
 		return []interface{}{complex128(0), complex128(1), complex128(1i), complex128(-2 + 3i), complex128(1e10 + 1e10i), complex128(-1 - 1i), complex128(0.5 - 2i), complex128(3)}
 	case ref.CString:
-		return []interface{}{"", "a,b", "b", "q\"q", "é", "a", "zz", "A", "x y", "-", "ab", "#x"} // (C14 rotates the list: the last value comes first - a leading '#' in the first cell of a CSV row)
+		return []interface{}{"", "a\nb", " x", "a,b", "x ", "q\"q", "\t", "é", "b", "a", "zz", "A", "x y", "-", "ab", "#x"} // (C14 rotates the list: the last value comes first - a leading '#' in the first cell of a CSV row)
 	case ref.CBool:
 		return []interface{}{true, false, false, true, true, false}
 	}
